@@ -10,7 +10,16 @@
  * ops (kinds 1, 2):  lock | try | unlock  (main thread)            -> "<ret>[ <word>]"
  *                    contend  (main thread holds; a second thread calls lock; 150 ms watchdog)
  *                                                                  -> blocks | acquired
+ *                    lock K | try K | unlock K   the same on object K of 0..3 (0 = the object of the index-free
+ *                             ops); K = -1 passes NULL             -> "<ret>[ <word>]" | "<ret> null"
+ *                    tother K   a second thread calls trylock on object K once and, if it got the lock, unlocks it
+ *                                                                  -> "<ret>[ <word afterwards>]"
+ *                    contend2 K (main thread holds K) two more threads call lock: three threads; 150 ms watchdog
+ *                             -> blocks | acquired ; then main unlocks and both take the lock in turn, " overlap"
+ *                             is appended when the shadow holder count ever exceeded 1
  * ops (kind 3):      new C | lock C | try C | unlock C | free C    -> "<ret> <native function called | ->"
+ *                    the native name carries "+attr" when pthread_mutex_init got an attribute object and "!ptr"
+ *                    when a native call got another address than the one given to pthread_mutex_init
  * The library's own diagnostics (P_ERROR prints to stdout) are diverted to stderr. */
 #include <pmutex.h>
 #include <pspinlock.h>
@@ -32,39 +41,50 @@ extern void p_mem_shutdown (void);
 
 static FILE *po;
 
+#define NOBJ 4
 #if PV_KIND == 1
-static PSpinLock *L;
+typedef PSpinLock LK;
 #  define NEW() p_spinlock_new ()
-#  define LOCK() p_spinlock_lock (L)
-#  define TRY() p_spinlock_trylock (L)
-#  define UNLOCK() p_spinlock_unlock (L)
-#  define FREE() p_spinlock_free (L)
+#  define LOCKX(l) p_spinlock_lock (l)
+#  define TRYX(l) p_spinlock_trylock (l)
+#  define UNLOCKX(l) p_spinlock_unlock (l)
+#  define FREEX(l) p_spinlock_free (l)
 #else
-static PMutex *L;
+typedef PMutex LK;
 #  define NEW() p_mutex_new ()
-#  define LOCK() p_mutex_lock (L)
-#  define TRY() p_mutex_trylock (L)
-#  define UNLOCK() p_mutex_unlock (L)
-#  define FREE() p_mutex_free (L)
+#  define LOCKX(l) p_mutex_lock (l)
+#  define TRYX(l) p_mutex_trylock (l)
+#  define UNLOCKX(l) p_mutex_unlock (l)
+#  define FREEX(l) p_mutex_free (l)
 #endif
+static LK *OBJ[NOBJ];
+#define L (OBJ[0])
+#define LOCK() LOCKX (L)
+#define TRY() TRYX (L)
+#define UNLOCK() UNLOCKX (L)
+#define FREE() FREEX (L)
 
 #if PV_KIND == 3
 static int script_code;
 static const char *last_native = "-";
-int __wrap_pthread_mutex_init (pthread_mutex_t *m, const pthread_mutexattr_t *a) { (void) m; (void) a; last_native = "pthread_mutex_init"; return script_code; }
-int __wrap_pthread_mutex_lock (pthread_mutex_t *m) { (void) m; last_native = "pthread_mutex_lock"; return script_code; }
-int __wrap_pthread_mutex_trylock (pthread_mutex_t *m) { (void) m; last_native = "pthread_mutex_trylock"; return script_code; }
-int __wrap_pthread_mutex_unlock (pthread_mutex_t *m) { (void) m; last_native = "pthread_mutex_unlock"; return script_code; }
-int __wrap_pthread_mutex_destroy (pthread_mutex_t *m) { (void) m; last_native = "pthread_mutex_destroy"; return script_code; }
+static pthread_mutex_t *init_ptr;
+#define NAT(m, name) (last_native = ((m) == init_ptr) ? name : name "!ptr")
+int __wrap_pthread_mutex_init (pthread_mutex_t *m, const pthread_mutexattr_t *a) { init_ptr = m; last_native = a ? "pthread_mutex_init+attr" : "pthread_mutex_init"; return script_code; }
+int __wrap_pthread_mutex_lock (pthread_mutex_t *m) { NAT (m, "pthread_mutex_lock"); return script_code; }
+int __wrap_pthread_mutex_trylock (pthread_mutex_t *m) { NAT (m, "pthread_mutex_trylock"); return script_code; }
+int __wrap_pthread_mutex_unlock (pthread_mutex_t *m) { NAT (m, "pthread_mutex_unlock"); return script_code; }
+int __wrap_pthread_mutex_destroy (pthread_mutex_t *m) { NAT (m, "pthread_mutex_destroy"); return script_code; }
 #endif
 
-static void answer (int ret) {
+static void answer_on (int ret, LK *l) {
+	if (l == NULL) { fprintf (po, "%d null\n", ret); return; }
 #if PV_HAS_WORD
-	fprintf (po, "%d %d\n", ret, *(volatile int *) L);
+	fprintf (po, "%d %d\n", ret, *(volatile int *) l);
 #else
 	fprintf (po, "%d\n", ret);
 #endif
 }
+#define answer(ret) answer_on (ret, L)
 
 #if PV_KIND != 3
 static volatile int t_done, t_go;
@@ -91,6 +111,52 @@ static void contend (void) {
 	__atomic_store_n (&t_go, 1, __ATOMIC_SEQ_CST);
 	pthread_join (th, NULL);
 }
+
+/* a second thread: one trylock on *arg; unlocks again when it got the lock */
+static void *try_other (void *arg) {
+	LK *l = arg;
+	int r = TRYX (l);
+	if (r) (void) UNLOCKX (l);
+	return (void *) (intptr_t) r;
+}
+
+static void tother (LK *l) {
+	pthread_t th;
+	void *r = NULL;
+	if (pthread_create (&th, NULL, try_other, l) != 0) { fputs ("thread-failed\n", po); return; }
+	pthread_join (th, &r);
+	answer_on ((int) (intptr_t) r, l);
+}
+
+/* three threads: main holds, two more call lock */
+static volatile int c2_done, c2_in, c2_overlap;
+
+static void *contender2 (void *arg) {
+	LK *l = arg;
+	(void) LOCKX (l);
+	__atomic_add_fetch (&c2_done, 1, __ATOMIC_SEQ_CST);
+	if (__atomic_add_fetch (&c2_in, 1, __ATOMIC_SEQ_CST) != 1) c2_overlap = 1;
+	while (!__atomic_load_n (&t_go, __ATOMIC_SEQ_CST)) usleep (200);
+	usleep (3000);
+	__atomic_sub_fetch (&c2_in, 1, __ATOMIC_SEQ_CST);
+	(void) UNLOCKX (l);
+	return NULL;
+}
+
+static void contend2 (LK *l) {
+	pthread_t th[2];
+	struct timespec ts = { 0, 1000000 };
+	int i, early;
+	c2_done = 0; c2_in = 0; c2_overlap = 0; t_go = 0;
+	for (i = 0; i < 2; i++)
+		if (pthread_create (&th[i], NULL, contender2, l) != 0) { fputs ("thread-failed\n", po); return; }
+	for (i = 0; i < 150 && !__atomic_load_n (&c2_done, __ATOMIC_SEQ_CST); i++) nanosleep (&ts, NULL);
+	early = __atomic_load_n (&c2_done, __ATOMIC_SEQ_CST);
+	__atomic_store_n (&t_go, 1, __ATOMIC_SEQ_CST);
+	(void) UNLOCKX (l);
+	for (i = 0; i < 2; i++) pthread_join (th[i], NULL);
+	fprintf (po, "%s%s\n", early ? "acquired" : "blocks", c2_overlap ? " overlap" : "");
+}
 #endif
 
 int main (void) {
@@ -101,7 +167,7 @@ int main (void) {
 	dup2 (2, 1);			/* library diagnostics -> stderr */
 	p_mem_init ();
 #if PV_KIND != 3
-	L = NEW ();
+	{ int k; for (k = 0; k < NOBJ; k++) OBJ[k] = NEW (); }
 #endif
 	while (fgets (line, sizeof line, stdin)) {
 		c = 0;
@@ -111,11 +177,17 @@ int main (void) {
 			if (sscanf (line, "%*s %31s", arg) == 1 && !strcmp (arg, PV_VARIANT)) fputs ("ok\n", po); else fputs ("bad-op\n", po);
 		}
 #if PV_KIND != 3
-		else if (!strcmp (op, "reset") && n == 1) { FREE (); L = NEW (); fputs ("ok\n", po); }
+		else if (!strcmp (op, "reset") && n == 1) { int k; for (k = 0; k < NOBJ; k++) { FREEX (OBJ[k]); OBJ[k] = NEW (); } fputs ("ok\n", po); }
 		else if (!strcmp (op, "lock") && n == 1) answer (LOCK ());
 		else if (!strcmp (op, "try") && n == 1) answer (TRY ());
 		else if (!strcmp (op, "unlock") && n == 1) answer (UNLOCK ());
 		else if (!strcmp (op, "contend") && n == 1) contend ();
+		else if (n == 2 && c >= -1 && c < NOBJ && (!strcmp (op, "lock") || !strcmp (op, "try") || !strcmp (op, "unlock"))) {
+			LK *l = c < 0 ? NULL : OBJ[c];
+			answer_on (op[0] == 'l' ? LOCKX (l) : op[0] == 't' ? TRYX (l) : UNLOCKX (l), l);
+		}
+		else if (!strcmp (op, "tother") && n == 2 && c >= 0 && c < NOBJ) tother (OBJ[c]);
+		else if (!strcmp (op, "contend2") && n == 2 && c >= 0 && c < NOBJ) contend2 (OBJ[c]);
 #else
 		else if (!strcmp (op, "reset") && n == 1) { script_code = 0; if (L) FREE (); L = NULL; fputs ("ok\n", po); }
 		else if (!strcmp (op, "new") && n == 2) {
